@@ -37,6 +37,11 @@ func runC01(opt *Options) int {
 			convs = append(convs, c)
 		}
 	}
+	// default constructors (error targets of every signature combination) and declared-signature variants
+	convs = append(convs, layerb.FamilyDefault(false)...)
+	convs = append(convs, layerb.FamilySignature(false)...)
+	// odd but well-typed programs: whatever goverter emits for them must type-check
+	convs = append(convs, layerb.FamilyOddities()...)
 	lb := &lbRun{Opt: opt, Convs: convs, Check: func(pc *layerb.PathCtx) {}, Bounds: layerb.Bounds{MaxSlice: 0, MaxMap: 0, RecDepth: 0}}
 	res := lb.runNoExplore()
 	known := loadKnown()
